@@ -80,6 +80,16 @@ func runC22(x *simkit.Exec) {
 		reqs = append(reqs, r)
 	}
 	faultsOn := x.Bool("transport-faults", 1, 2)
+	// Tenant splitting by label: none of the scenario's series carries the label, so placement and tenants
+	// are unaffected; but a client may first send a request that the handler must reject (a later series of
+	// it names an invalid tenant) through the same entry node. What such a request leaves behind in the
+	// handler must not count towards anybody's quorum.
+	splitLbl := ""
+	rejectedFirst := false
+	if x.Bool("split-tenant-label", 1, 3) {
+		splitLbl = "shard_tenant"
+		rejectedFirst = x.Bool("rejected-request-first", 2, 3)
+	}
 
 	// which (node, replica) pairs does the scenario touch? (placement by the real hashring; C18 is the
 	// property about the hashring itself)
@@ -188,7 +198,7 @@ func runC22(x *simkit.Exec) {
 				}
 			}
 			return oOK, false
-		}, script, faultsOn && vi%2 == 1)
+		}, script, faultsOn && vi%2 == 1, splitLbl, rejectedFirst)
 		if x.Failed() || len(x.Trouble) > 0 {
 			return
 		}
@@ -205,9 +215,9 @@ func endpointsOf(n int) []receive.Endpoint {
 }
 
 func c22Execute(x *simkit.Exec, salt string, nNodes, rf int, algo receive.HashringAlgorithm, reqs []*c22Request,
-	outcomeOf func(node, tenant, name string) (outcome, bool), script map[pair]outcome, transportFaults bool) {
+	outcomeOf func(node, tenant, name string) (outcome, bool), script map[pair]outcome, transportFaults bool, splitLbl string, rejectedFirst bool) {
 	x.Bubble(salt, func(s *simkit.Sim) {
-		c, err := newCluster(s, x, clusterCfg{workers: 16, nodes: nNodes, rf: rf, algo: algo})
+		c, err := newCluster(s, x, clusterCfg{workers: 16, nodes: nNodes, rf: rf, algo: algo, splitLbl: splitLbl})
 		if err != nil {
 			x.Troublef("c22: cluster: %v", err)
 			return
@@ -286,6 +296,27 @@ func c22Execute(x *simkit.Exec, salt string, nNodes, rf int, algo receive.Hashri
 				ctx := context.Background()
 				if err := s.Park(ctx, s.OpID(fmt.Sprintf("client%d", r.id), "send", en.name)); err != nil {
 					return
+				}
+				if rejectedFirst {
+					bad := &prompb.WriteRequest{Timeseries: []prompb.TimeSeries{
+						simpleSeries(fmt.Sprintf("q%drejected0", r.id), "job", "c22"),
+						simpleSeries(fmt.Sprintf("q%drejected1", r.id), "job", "c22", splitLbl, "../other-tenant"),
+					}}
+					req, err := v1Request(ctx, r.tenants[0], bad, "")
+					if err != nil {
+						x.Troublef("c22: request: %v", err)
+						return
+					}
+					res := en.serve(req)
+					if res.panicked != nil {
+						x.Troublef("c22: handler panicked: %v\n%s", res.panicked, res.stack)
+						return
+					}
+					if res.code/100 == 2 {
+						s.Probe("c22.invalid_tenant_request_accepted")
+					} else {
+						s.Probe("c22.invalid_tenant_request_rejected")
+					}
 				}
 				switch r.mode {
 				case 0, 1:
